@@ -53,6 +53,25 @@ def feature_matrix_totality(an, rep):
         _retag(rep, start, f)
 
 
+def feature_matrix(*rules, **kw):
+    """thorough-tier factory: run the given rules of the quick tier again on every other feature set of desert_core (the
+    rules read `an.core()`, which the FeatureView redirects); rule ids are suffixed with the feature set"""
+    import inspect
+
+    def run(an, rep):
+        for f in FEATURES:
+            start = len(rep.rules)
+            view = FeatureView(an, f)
+            for rule in rules:
+                if "features" in inspect.signature(rule).parameters:
+                    rule(view, rep, f)
+                else:
+                    rule(view, rep)
+            _retag(rep, start, f)
+    run.__name__ = kw.get("name", "feature_matrix_" + "_".join(r.__name__ for r in rules)[:60])
+    return run
+
+
 def derived_statics(an, rep):
     """S1/S2 over every crate that contains derive expansions (corpus + repository tests/benchmarks)."""
     crates = [an.corpus().crate("verif_corpus", False)]
